@@ -92,15 +92,10 @@ Definition a_cleanup (F : faults) (a : aclean) : aclean * option exn :=
   match g1 with
   | Exn e => (a1, Some e)
   | _ =>
-    let (a2, g2) := a_git_call (f_prune F) (fun x => Some x) a1 in
-    match g2 with
-    | Exn e => (a2, Some e)
-    | _ =>
-      let (a3, g3) := a_git_call (f_branchD F) a_branchD a2 in
-      match g3 with
-      | Exn e => (a3, Some e)
-      | _ => (a3, None)
-      end
+    let (a3, g3) := a_git_call (f_branchD F) a_branchD a1 in
+    match g3 with
+    | Exn e => (a3, Some e)
+    | _ => (a3, None)
     end
   end.
 
@@ -243,6 +238,17 @@ Section Flow.
     unfold add_tmp. simpl. rewrite ?Nat.eqb_refl. simpl. reflexivity.
   Qed.
 
+  Lemma cleanup_sim : forall F a,
+    cleanup true F b p (cn a) = (cn (fst (a_cleanup F a)), snd (a_cleanup F a)).
+  Proof.
+    intros F a. unfold cleanup, a_cleanup.
+    rewrite (git_call_sim cn (wt_remove true p) a_remove (f_remove F) a remove_sim).
+    destruct (a_git_call (f_remove F) a_remove a) as [a1 g1]; simpl.
+    destruct g1; try reflexivity;
+      rewrite (git_call_sim cn (branch_D b) a_branchD (f_branchD F) a1 branchD_sim);
+      destruct (a_git_call (f_branchD F) a_branchD a1) as [a3 g3]; simpl; destruct g3; reflexivity.
+  Qed.
+
   (* ---- prune needs the extra hypothesis on s *)
   Hypothesis Hnp : no_prunable s = true.
 
@@ -262,55 +268,34 @@ Section Flow.
     - f_equal. apply (K (dirs s)); auto.
   Qed.
 
-  Lemma cleanup_sim : forall F a,
-    cleanup true F b p (cn a) = (cn (fst (a_cleanup F a)), snd (a_cleanup F a)).
-  Proof.
-    intros F a. unfold cleanup, a_cleanup.
-    rewrite (git_call_sim cn (wt_remove true p) a_remove (f_remove F) a remove_sim).
-    destruct (a_git_call (f_remove F) a_remove a) as [a1 g1]; simpl.
-    destruct g1; try reflexivity.
-    - rewrite (git_call_sim cn (fun x => Some (wt_prune x)) (fun x => Some x) (f_prune F) a1)
-        by (intros a0; rewrite prune_sim; reflexivity).
-      destruct (a_git_call (f_prune F) (fun x => Some x) a1) as [a2 g2]; simpl.
-      destruct g2; try reflexivity;
-        rewrite (git_call_sim cn (branch_D b) a_branchD (f_branchD F) a2 branchD_sim);
-        destruct (a_git_call (f_branchD F) a_branchD a2) as [a3 g3]; simpl; destruct g3; reflexivity.
-    - rewrite (git_call_sim cn (fun x => Some (wt_prune x)) (fun x => Some x) (f_prune F) a1)
-        by (intros a0; rewrite prune_sim; reflexivity).
-      destruct (a_git_call (f_prune F) (fun x => Some x) a1) as [a2 g2]; simpl.
-      destruct g2; try reflexivity;
-        rewrite (git_call_sim cn (branch_D b) a_branchD (f_branchD F) a2 branchD_sim);
-        destruct (a_git_call (f_branchD F) a_branchD a2) as [a3 g3]; simpl; destruct g3; reflexivity.
-  Qed.
-
 End Flow.
 
 (* the finite part, decided by computation: the cleanup reaches the clean state exactly under cleanup_benign *)
 Lemma a_cleanup_benign_iff : forall F d, fst (a_cleanup F (AFull d)) = AClean <-> cleanup_benign F = true.
 Proof.
-  intros [fa fm fd fr fp fb] d. unfold cleanup_benign, a_cleanup; simpl.
-  destruct fr, fp, fb; simpl; split; intro H; try reflexivity; try discriminate.
+  intros [fa fm fd fr fb] d. unfold cleanup_benign, a_cleanup; simpl.
+  destruct fr, fb; simpl; split; intro H; try reflexivity; try discriminate.
 Qed.
 
 (* ------------------------------------------------------------------ load_git: closed form after a successful add *)
 
 Lemma after_add :
   forall s p ref c tree evs F,
-  wf s = true -> fresh p s = true -> no_prunable s = true ->
+  wf s = true -> fresh p s = true ->
   has_branch (tmp_branch ref) s = false ->
   exists d r,
     finish true F (tmp_branch ref) p (git_body ref tree evs p) (conc s p (tmp_branch ref) c (AFull false))
     = (final s p (tmp_branch ref) c (fst (a_cleanup F (AFull d))), r).
 Proof.
-  intros s p ref c tree evs F Hwf Hfr Hnp Hnob. unfold finish, git_body.
+  intros s p ref c tree evs F Hwf Hfr Hnob. unfold finish, git_body.
   set (b := tmp_branch ref).
   assert (E : slookup b (branches (conc s p b c (AFull false))) = Some c) by (simpl; rewrite String.eqb_refl; reflexivity).
   rewrite E. unfold load_body.
   destruct (content_at tree c).
-  - exists false. eexists. rewrite (cleanup_sim s p b c Hwf Hfr Hnob Hnp). rewrite (rmtree_final s p b c Hfr). reflexivity.
-  - exists false. eexists. rewrite (cleanup_sim s p b c Hwf Hfr Hnob Hnp). rewrite (rmtree_final s p b c Hfr). reflexivity.
+  - exists false. eexists. rewrite (cleanup_sim s p b c Hwf Hfr Hnob). rewrite (rmtree_final s p b c Hfr). reflexivity.
+  - exists false. eexists. rewrite (cleanup_sim s p b c Hwf Hfr Hnob). rewrite (rmtree_final s p b c Hfr). reflexivity.
   - rewrite (run_events_full s p b c Hfr). exists (dirty_after evs false). eexists.
-    rewrite (cleanup_sim s p b c Hwf Hfr Hnob Hnp). rewrite (rmtree_final s p b c Hfr). reflexivity.
+    rewrite (cleanup_sim s p b c Hwf Hfr Hnob). rewrite (rmtree_final s p b c Hfr). reflexivity.
 Qed.
 
 Lemma add_possible_inv : forall s ref, add_possible s ref = true ->
@@ -333,10 +318,10 @@ Qed.
    is the state before it EXACTLY WHEN the placement is benign. *)
 Theorem load_git_restored_iff :
   forall s p ref tree evs isrepo F,
-  wf s = true -> fresh p s = true -> no_prunable s = true ->
+  wf s = true -> fresh p s = true ->
   (fst (load_git true isrepo F p ref tree evs s) = s <-> benign isrepo s ref F = true).
 Proof.
-  intros s p ref tree evs isrepo F Hwf Hfr Hnp.
+  intros s p ref tree evs isrepo F Hwf Hfr.
   unfold benign, gap_add_after, excluded_cleanup_fault, reaches_cleanup, reaches_add.
   unfold load_git, tmp_worktree.
   destruct isrepo; destruct (f_assert F) eqn:Ea; cbn [git_call apply_step is_nofault andb negb fst]; try (split; reflexivity).
@@ -346,7 +331,7 @@ Proof.
     pose proof (add_done s p (tmp_branch ref) c Hfr Hnob ref Hres) as Hadd.
     destruct (f_add F) eqn:Ed; cbn [git_call is_nofault andb negb]; unfold apply_step; rewrite ?Hadd; cbn [fst andb negb].
     + (* add succeeds: body, cleanup, rmtree *)
-      destruct (after_add s p ref c tree evs F Hwf Hfr Hnp Hnob) as [d [r H]].
+      destruct (after_add s p ref c tree evs F Hwf Hfr Hnob) as [d [r H]].
       rewrite H. cbn [fst].
       rewrite (final_clean_iff s p (tmp_branch ref) c Hnob). rewrite a_cleanup_benign_iff.
       destruct (cleanup_benign F); cbn [negb]; split; congruence.
@@ -366,7 +351,7 @@ Qed.
 
 Theorem load_git_state_restored :
   forall s p ref tree evs isrepo F,
-  wf s = true -> fresh p s = true -> no_prunable s = true -> benign isrepo s ref F = true ->
+  wf s = true -> fresh p s = true -> benign isrepo s ref F = true ->
   fst (load_git true isrepo F p ref tree evs s) = s.
 Proof. intros. apply load_git_restored_iff; assumption. Qed.
 
@@ -378,7 +363,6 @@ Section Preserve.
   Hypothesis P_mkdtemp : forall x, P x -> P (mkdtemp p x).
   Hypothesis P_add : forall b r x y, wt_add b p r x = Some y -> P x -> P y.
   Hypothesis P_remove : forall f x y, wt_remove f p x = Some y -> P x -> P y.
-  Hypothesis P_prune : forall x, P x -> P (wt_prune x).
   Hypothesis P_branchD : forall b x y, branch_D b x = Some y -> P x -> P y.
   Hypothesis P_touch : forall x, P x -> P (touch p x).
 
@@ -393,12 +377,9 @@ Section Preserve.
     intros force F b x Hx. unfold cleanup.
     pose proof (P_git_call (f_remove F) (wt_remove force p) x (P_remove force) Hx) as H1.
     destruct (git_call (f_remove F) (wt_remove force p) x) as [s1 g1]. simpl in H1.
-    assert (H2 : P (fst (git_call (f_prune F) (fun y => Some (wt_prune y)) s1))).
-    { apply P_git_call; [|exact H1]. intros a y E Ha. inversion E. subst. apply P_prune. exact Ha. }
-    destruct (git_call (f_prune F) (fun y => Some (wt_prune y)) s1) as [s2 g2]. simpl in H2.
-    pose proof (P_git_call (f_branchD F) (branch_D b) s2 (P_branchD b) H2) as H3.
-    destruct (git_call (f_branchD F) (branch_D b) s2) as [s3 g3]. simpl in H3.
-    destruct g1; simpl; try assumption; destruct g2; simpl; try assumption; destruct g3; simpl; assumption.
+    pose proof (P_git_call (f_branchD F) (branch_D b) s1 (P_branchD b) H1) as H3.
+    destruct (git_call (f_branchD F) (branch_D b) s1) as [s3 g3]. simpl in H3.
+    destruct g1; simpl; try assumption; destruct g3; simpl; assumption.
   Qed.
 
   Lemma P_run_events : forall evs x, P x -> P (fst (run_events evs p x)).
@@ -475,7 +456,6 @@ Proof.
     + destruct (dirty && negb f); [discriminate|]. inversion E; subst; clear E. split; simpl; [exact H1|].
       unfold drop_dir in *. rewrite filter_idem. exact H2.
     + inversion E; subst; clear E. split; simpl; assumption.
-  - intros x [H1 H2]. split; simpl; assumption.
   - intros b x y E [H1 H2]. unfold branch_D in E. destruct (has_branch b x && negb (checked_out b x)); [|discriminate].
     inversion E; subst; clear E. split; simpl; assumption.
   - intros x Hx. apply P_git_body; [|exact Hx]. intros y [H1 H2]. split; simpl; [exact H1|]. rewrite drop_dir_map_touch. exact H2.
@@ -502,7 +482,6 @@ Proof.
     destruct (rlocked r); [discriminate|]. destruct (nlookup p (dirs x)) as [dirty|].
     + destruct (dirty && negb f); [discriminate|]. inversion E; subst. exact H.
     + inversion E; subst. exact H.
-  - intros x H. exact H.
   - intros b x y E H. unfold branch_D in E. destruct (has_branch b x && negb (checked_out b x)); [|discriminate].
     inversion E; subst. exact H.
   - intros x Hx. apply P_git_body; [exact T|exact Hx].
@@ -514,11 +493,11 @@ Qed.
 (* ------------------------------------------------------------------ check *)
 
 Lemma load_new_restored : forall s a tree isrepo,
-  wf s = true -> fresh (c_p2 a) s = true -> no_prunable s = true ->
+  wf s = true -> fresh (c_p2 a) s = true ->
   match c_base a with Some r => benign isrepo s r (c_F2 a) | None => true end = true ->
   fst (load_new true isrepo a tree s) = s.
 Proof.
-  intros s a tree isrepo Hwf Hfr Hnp Hb. unfold load_new. destruct (c_base a) as [r|].
+  intros s a tree isrepo Hwf Hfr Hb. unfold load_new. destruct (c_base a) as [r|].
   - apply load_git_state_restored; assumption.
   - destruct (c_work a); try reflexivity. destruct (run_events (c_evs2 a) (c_p2 a) s) as [x [e|]]; reflexivity.
 Qed.
@@ -533,19 +512,19 @@ Qed.
 
 Theorem check_state_restored :
   forall s a tree breaking isrepo,
-  wf s = true -> no_prunable s = true -> fresh (c_p1 a) s = true -> fresh (c_p2 a) s = true ->
+  wf s = true -> fresh (c_p1 a) s = true -> fresh (c_p2 a) s = true ->
   check_benign isrepo s a = true ->
   fst (check true isrepo a tree breaking s) = s.
 Proof.
-  intros s a tree breaking isrepo Hwf Hnp Hf1 Hf2 Hb. unfold check.
+  intros s a tree breaking isrepo Hwf Hf1 Hf2 Hb. unfold check.
   destruct (against_of a) as [ag|r] eqn:Eag; [|reflexivity].
   destruct (ro_call (c_f_root a) isrepo); try reflexivity.
   destruct (c_ext_fails a); [reflexivity|].
   unfold check_benign in Hb. rewrite (against_effective a ag Eag) in Hb. apply andb_true_iff in Hb. destruct Hb as [Hb1 Hb2].
-  pose proof (load_git_state_restored s (c_p1 a) ag tree (c_evs1 a) isrepo (c_F1 a) Hwf Hf1 Hnp Hb1) as H1.
+  pose proof (load_git_state_restored s (c_p1 a) ag tree (c_evs1 a) isrepo (c_F1 a) Hwf Hf1 Hb1) as H1.
   destruct (load_git true isrepo (c_F1 a) (c_p1 a) ag tree (c_evs1 a) s) as [s1 r1]. simpl in H1. subst s1.
   destruct r1 as [vo|e]; [|reflexivity].
-  pose proof (load_new_restored s a tree isrepo Hwf Hf2 Hnp Hb2) as H2.
+  pose proof (load_new_restored s a tree isrepo Hwf Hf2 Hb2) as H2.
   destruct (load_new true isrepo a tree s) as [s2 r2]. simpl in H2. subst s2.
   destruct r2; reflexivity.
 Qed.
@@ -588,10 +567,10 @@ Qed.
 
 Theorem history_restored :
   forall tree breaking ops s,
-  wf s = true -> no_prunable s = true -> forallb (op_ok s) ops = true ->
+  wf s = true -> forallb (op_ok s) ops = true ->
   fold_left (run_op tree breaking) ops s = s.
 Proof.
-  intros tree breaking ops s Hwf Hnp. induction ops as [|o ops IH]; simpl; intros H; [reflexivity|].
+  intros tree breaking ops s Hwf. induction ops as [|o ops IH]; simpl; intros H; [reflexivity|].
   apply andb_true_iff in H. destruct H as [Ho Hops].
   assert (E : run_op tree breaking s o = s).
   { destruct o as [isrepo F p ref evs|isrepo a]; simpl in *.
@@ -610,7 +589,7 @@ Definition tree_wit : list (commit * content) := [(0, CPackage); (1, CPackage)].
    the temporary branch and a stale registration behind; with it the same run restores the state *)
 Lemma without_force_refuted :
   exists s p ref tree evs,
-    wf s = true /\ fresh p s = true /\ no_prunable s = true /\ benign true s ref no_faults = true /\
+    wf s = true /\ fresh p s = true /\ benign true s ref no_faults = true /\
     fst (load_git false true no_faults p ref tree evs s) <> s /\
     fst (load_git true true no_faults p ref tree evs s) = s.
 Proof.
@@ -621,43 +600,38 @@ Qed.
 (* F2: `worktree add` takes effect and then reports failure *)
 Lemma add_after_refuted :
   exists s p ref tree evs F,
-    wf s = true /\ fresh p s = true /\ no_prunable s = true /\ f_add F = FailAfter /\
+    wf s = true /\ fresh p s = true /\ f_add F = FailAfter /\
     fst (load_git true true F p ref tree evs s) <> s /\
     snd (load_git true true F p ref tree evs s) = Raised "RuntimeError".
 Proof.
-  exists s_wit, 7, "v1", tree_wit, [], (mkFaults NoFault false FailAfter NoFault NoFault NoFault).
+  exists s_wit, 7, "v1", tree_wit, [], (mkFaults NoFault false FailAfter NoFault NoFault).
   repeat split; try reflexivity. vm_compute. intro H. discriminate H.
 Qed.
 
-(* F3: the user's own prunable registration disappears although nothing failed *)
+(* the repaired finding F3, now a positive statement: a stale, unlocked registration of the user's own survives *)
 Definition s_wit_stale : repo :=
   mkRepo (Some "main") 1 0 [("main", 1); ("user", 0)] [("v1", 0)] [mkReg 3 (Some "user") false] [] [].
 
-Lemma prune_foreign_refuted :
-  exists s p ref tree evs,
-    wf s = true /\ fresh p s = true /\ benign true s ref no_faults = true /\ no_prunable s = false /\
-    fst (load_git true true no_faults p ref tree evs s) <> s /\
-    snd (load_git true true no_faults p ref tree evs s) = Returned 0.
-Proof.
-  exists s_wit_stale, 7, "v1", tree_wit, [].
-  repeat split; try reflexivity. vm_compute. intro H. discriminate H.
-Qed.
+Example stale_registration_survives :
+  wf s_wit_stale = true /\ fresh 7 s_wit_stale = true /\ no_prunable s_wit_stale = false /\
+  load_git true true no_faults 7 "v1" tree_wit [] s_wit_stale = (s_wit_stale, Returned 0).
+Proof. repeat split; reflexivity. Qed.
 
 (* why the cleanup faults are excluded by hypothesis: when `branch -D` itself fails nothing can remove the branch *)
 Lemma cleanup_fault_refuted :
   exists s p ref tree evs F,
-    wf s = true /\ fresh p s = true /\ no_prunable s = true /\ f_branchD F = FailBefore /\
+    wf s = true /\ fresh p s = true /\ f_branchD F = FailBefore /\
     fst (load_git true true F p ref tree evs s) <> s.
 Proof.
-  exists s_wit, 7, "v1", tree_wit, [], (mkFaults NoFault false NoFault NoFault NoFault FailBefore).
+  exists s_wit, 7, "v1", tree_wit, [], (mkFaults NoFault false NoFault NoFault FailBefore).
   repeat split; try reflexivity. vm_compute. intro H. discriminate H.
 Qed.
 
 (* the hypotheses of the main theorem are satisfiable together with a non-trivial run *)
 Example restored_nonvacuous :
-  wf s_wit = true /\ fresh 7 s_wit = true /\ no_prunable s_wit = true /\
-  benign true s_wit "v1" (mkFaults NoFault false NoFault FailAfter FailBefore (RaiseAfter "KeyboardInterrupt")) = true /\
-  load_git true true (mkFaults NoFault false NoFault FailAfter FailBefore (RaiseAfter "KeyboardInterrupt")) 7 "v1" tree_wit
+  wf s_wit = true /\ fresh 7 s_wit = true /\
+  benign true s_wit "v1" (mkFaults NoFault false NoFault FailAfter (RaiseAfter "KeyboardInterrupt")) = true /\
+  load_git true true (mkFaults NoFault false NoFault FailAfter (RaiseAfter "KeyboardInterrupt")) 7 "v1" tree_wit
            [EvWrite; EvRaise "Injected"] s_wit = (s_wit, Raised "KeyboardInterrupt").
 Proof. repeat split; reflexivity. Qed.
 
@@ -717,38 +691,28 @@ Proof.
 Qed.
 
 Theorem location_prefix_stripped :
-  forall root suffix normref rel,
+  forall root suffix dirname rel,
   Forall (fun x => String.prefix wt_prefix x = false) root ->
-  normref <> "" ->
-  location true (checkout_parts root (wt_prefix ++ suffix) normref ++ rel) = rel.
+  location true (checkout_parts root (wt_prefix ++ suffix) dirname ++ rel) = rel.
 Proof.
-  intros root suffix normref rel Hroot Hn. unfold checkout_parts.
-  destruct (String.eqb normref "") eqn:E; [apply String.eqb_eq in E; contradiction|].
+  intros root suffix dirname rel Hroot. unfold checkout_parts.
   unfold location. rewrite <- app_assoc. rewrite (location_abs_skip root _ Hroot).
   cbn [app location_abs]. rewrite prefix_app. reflexivity.
 Qed.
 
-(* F4: a reference made of non-word characters only (`@`) normalises to the empty string, the checkout IS the
-   temporary directory, and the first component of the repository-relative path is dropped as well *)
-Lemma location_refuted_empty_normref :
-  exists ref root suffix rel,
-    Forall (fun x => String.prefix wt_prefix x = false) root /\
-    location true (checkout_parts root (wt_prefix ++ suffix) (normalize ref) ++ rel) <> rel.
+(* the repaired finding F4: the checkout directory name is never empty (so the checkout is a sub-directory of the
+   temporary directory, which is what checkout_parts assumes) and is a single path component *)
+Theorem checkout_name_safe :
+  forall ref, checkout_name ref <> "" /\
+    all_chars (fun c => c <> "/"%char /\ c <> "."%char /\ c <> " "%char /\ c <> "\"%char) (checkout_name ref).
 Proof.
-  exists "@", ["/"; "tmp"], "repo--x1", ["src"; "pkg"; "__init__.py"]. split.
-  - repeat constructor.
-  - vm_compute. intro H. discriminate H.
+  intros ref. unfold checkout_name. destruct (String.eqb (normalize ref) "") eqn:E.
+  - split; [discriminate|]. simpl. repeat split; intro H; discriminate H.
+  - split; [apply String.eqb_neq; exact E|apply normalize_no_separator].
 Qed.
 
-Theorem location_empty_normref :
-  forall root suffix x rel,
-  Forall (fun x => String.prefix wt_prefix x = false) root ->
-  location true (checkout_parts root (wt_prefix ++ suffix) "" ++ x :: rel) = rel.
-Proof.
-  intros root suffix x rel Hroot. unfold checkout_parts. simpl String.eqb. cbv iota.
-  unfold location. rewrite <- app_assoc. rewrite (location_abs_skip root _ Hroot).
-  cbn [app location_abs]. rewrite prefix_app. reflexivity.
-Qed.
+Example checkout_name_at : checkout_name "@" = "ref" /\ checkout_name "feat/x" = "feat-x" /\ tmp_branch "@" = "griffe-ref".
+Proof. repeat split; reflexivity. Qed.
 
 (* ------------------------------------------------------------------ lines collection *)
 
